@@ -288,6 +288,9 @@ func (e *Engine) localType(fn *ssa.Function, name string) types.Type {
 				switch x := in.(type) {
 				case *ssa.DebugRef:
 					if obj := x.Object(); obj != nil {
+						if v, ok := obj.(*types.Var); !ok || v.IsField() || (obj.Pkg() != nil && obj.Parent() == obj.Pkg().Scope()) {
+							continue
+						}
 						if _, seen := m[obj.Name()]; !seen {
 							m[obj.Name()] = obj.Type()
 						}
